@@ -26,6 +26,10 @@ pub trait VQueue: Sized {
             old(self).q().len() == 0 ==> r is None && final(self).q() == old(self).q(),
             old(self).q().len() > 0 ==> r == Some(old(self).q().last()) && final(self).q() == old(self).q().drop_last();
     fn push_front(&mut self, m: DltMessage) ensures final(self).q() == seq![m] + old(self).q();
+    fn front(&self) -> (r: Option<&DltMessage>)
+        ensures self.q().len() == 0 ==> r is None, self.q().len() > 0 ==> r == Some(&self.q()[0]);
+    fn back(&self) -> (r: Option<&DltMessage>)
+        ensures self.q().len() == 0 ==> r is None, self.q().len() > 0 ==> r == Some(&self.q()[self.q().len() - 1]);
     // `queue[0]`
     fn vx_first(&self) -> (r: &DltMessage) requires self.q().len() > 0, ensures *r == self.q()[0];
 }
@@ -35,7 +39,7 @@ pub trait VIdSet: Sized {
     fn contains(&self, id: &u32) -> (r: bool) ensures r == self.ids().contains(*id);
     fn remove(&mut self, id: &u32) -> (r: bool) ensures final(self).ids() == old(self).ids().remove(*id), r == old(self).ids().contains(*id);
     fn is_empty(&self) -> (r: bool) ensures r == (forall|x: u32| !self.ids().contains(x));
-    fn len(&self) -> (r: usize) ensures (r == 0) == (forall|x: u32| !self.ids().contains(x));
+    fn len(&self) -> (r: usize) ensures (r == 0) == (forall|x: u32| !self.ids().contains(x)), r == self.ids().len();
 }
 // evmap write handle for the shared lifecycle table (`lcs_w`): an update becomes visible to the readers with the next refresh
 pub trait VLcTable: Sized {
